@@ -183,3 +183,9 @@ Proof.
   split; [right; now left|]. exact keyed_set_drops_an_explicit_input.
 Qed.
 Print Assumptions C09_non_injective_key_refuted.
+
+(* whatever the key function: no two references of the body's input set are filed under the same key -- and with the
+   implementation's keys (injective on the case's table, keys_ok) that is: no reference twice *)
+Theorem C09_keyed_set_distinct_keys : forall key sel, NoDup (map key (body_inputs_k key sel)).
+Proof. intros key sel. unfold body_inputs_k. apply kbuild_nodup_keys. exact N_eqb_eq. Qed.
+Print Assumptions C09_keyed_set_distinct_keys.
